@@ -706,7 +706,8 @@ class WireEngine(BaseEngine):
         if plan.get('mode') == 'pq_threads':
             from .ports_conc import ENGINE as PC
             yield from PC.shrink(prop, plan)
-            yield from shrink_list_at(plan, ('wire',))
+            if 'wire' in plan:
+                yield from shrink_list_at(plan, ('wire',))
             return
         if prop == 'C06':
             yield from shrink_list_at(plan, ('msgs',), min_len=1)   # rt indices are re-validated at run time
